@@ -85,6 +85,7 @@ type Sched struct {
 	Trace       []string
 	Deadlock    bool
 	Stalled     bool        // see schedStall
+	Class       string      // class of the scheduler's choice points (default "sched")
 	Panics      []string    // panics of modelled threads
 	foreign     interface{} // an explorer sentinel that surfaced inside a thread
 	Steps       int
@@ -384,6 +385,9 @@ func (s *Sched) Run() {
 				}
 			}
 		}
+		if s.foreign != nil {
+			break
+		}
 		en := s.enabled()
 		if len(en) == 0 {
 			s.Deadlock = true
@@ -394,7 +398,11 @@ func (s *Sched) Run() {
 			break
 		}
 		s.Steps++
-		tr := en[s.x.Choose(len(en), "sched")]
+		cls := s.Class
+		if cls == "" {
+			cls = "sched"
+		}
+		tr := en[s.x.Choose(len(en), cls)]
 		s.Trace = append(s.Trace, tr.label)
 		switch tr.kind {
 		case "arrive":
@@ -463,6 +471,11 @@ func (s *Sched) Run() {
 			t.resume <- struct{}{}
 			<-s.yield
 		}
+	}
+	s.cur = nil
+	if s.foreign != nil {
+		// a sentinel of the explorer (abort of a foreign shard, harness error, oracle failure) surfaced inside a thread
+		panic(s.foreign)
 	}
 }
 
